@@ -1,4 +1,5 @@
-import ComposeVerif.Lemmas.Name
+import ComposeVerif.Lemmas.NameDotenv
+import ComposeVerif.Lemmas.NameExamples
 import ComposeVerif.Gen.NameFacts
 import ComposeVerif.Neg.C17
 /-!
@@ -22,6 +23,10 @@ theorem source_constants_are_modelled :
     CV.Gen.normalize_calls = ["regexp.MustCompile", "strings.ToLower", "strings.Join", "r.FindAllString", "strings.TrimLeft"] ∧
     CV.Gen.const_ComposeProjectName = String.ofList cpn ∧
     CV.Gen.const_ComposeDisableDefaultEnvFile = String.ofList disableKey ∧
+    CV.Gen.const_ComposeFilePath = String.ofList composeFileKey ∧
+    CV.Gen.const_ComposePathSeparator = String.ofList pathSepKey ∧
+    CV.Gen.cli_DefaultFileNames = defaultFileNames.map String.ofList ∧
+    CV.Gen.cli_DefaultOverrideFileNames = defaultOverrideFileNames.map String.ofList ∧
     CV.Gen.namePrecedence_conds =
       ["options.Name != \"\"",
        "nameFromEnv, ok := options.Environment[consts.ComposeProjectName]; ok && nameFromEnv != \"\""] := by
@@ -55,12 +60,12 @@ example : validName "_x".toList = false := by decide
 /-! ## the name decision -/
 
 /-- name_decision, soundness: the name of a successful load is the one the specification selects -/
-theorem name_decision (w : World) (o : PO) (r : Loaded) (h : load w o = .ok r) :
-    Spec.decide (sourcesOf w o) = .name r.name := by
+theorem name_decision {files : List (List (Option Str))} (w : World) (o : PO) (r : Loaded) (h : loadFiles w o files = .ok r) :
+    Spec.decide (sourcesOf w o files) = .name r.name := by
   have ⟨h1, h2, _⟩ := load_ok_inv w o r h
-  have ha := loaderName_agrees w o
+  have ha := loaderName_agrees (files := files) w o
   rw [h1] at ha
-  cases hd : Spec.decide (sourcesOf w o) with
+  cases hd : Spec.decide (sourcesOf w o files) with
   | name n =>
     rw [hd] at ha
     have := ha.1
@@ -69,26 +74,26 @@ theorem name_decision (w : World) (o : PO) (r : Loaded) (h : load w o = .ok r) :
   | failed => rw [hd] at ha; rcases ha with ha | ha <;> cases ha
   | noName => rw [hd] at ha; exact absurd (Except.ok.inj ha) h2
 
-theorem name_decision_complete (w : World) (o : PO) (n p : Str)
-    (hd : Spec.decide (sourcesOf w o) = .name n)
-    (h3 : interpAll ((cpn, n) :: o.env) (allNames w) = .ok ())
+theorem name_decision_complete {files : List (List (Option Str))} (w : World) (o : PO) (n p : Str)
+    (hd : Spec.decide (sourcesOf w o files) = .name n)
+    (h3 : interpAll ((cpn, n) :: o.env) (allNames files) = .ok ())
     (h4 : Template.subst (Env.get ((cpn, n) :: o.env)) w.probe = .ok p) :
-    load w o = .ok { name := n, env := (cpn, n) :: o.env, probe := p } := by
-  have ha := loaderName_agrees w o
+    loadFiles w o files = .ok { name := n, env := (cpn, n) :: o.env, probe := p } := by
+  have ha := loaderName_agrees (files := files) w o
   rw [hd] at ha
   exact load_ok_intro w o n p ha.1 ha.2 h3 h4
 
-theorem name_rejected (w : World) (o : PO) (hd : Spec.decide (sourcesOf w o) = .rejected) :
-    load w o = .error .invalidName := by
-  have ha := loaderName_agrees w o
+theorem name_rejected {files : List (List (Option Str))} (w : World) (o : PO) (hd : Spec.decide (sourcesOf w o files) = .rejected) :
+    loadFiles w o files = .error .invalidName := by
+  have ha := loaderName_agrees (files := files) w o
   rw [hd] at ha
-  unfold load
-  rw [show loaderName w o.env (cliName w o) = .error .invalidName from ha]
+  unfold loadFiles
+  rw [show loaderName files o.env (cliName w o) = .error .invalidName from ha]
 
-theorem name_none (w : World) (o : PO)
-    (hd : Spec.decide (sourcesOf w o) = .noName ∨ Spec.decide (sourcesOf w o) = .failed) :
-    ∃ e, load w o = .error e := by
-  cases hl : load w o with
+theorem name_none {files : List (List (Option Str))} (w : World) (o : PO)
+    (hd : Spec.decide (sourcesOf w o files) = .noName ∨ Spec.decide (sourcesOf w o files) = .failed) :
+    ∃ e, loadFiles w o files = .error e := by
+  cases hl : loadFiles w o files with
   | error e => exact ⟨e, rfl⟩
   | ok r =>
     have := name_decision w o r hl
@@ -98,7 +103,7 @@ theorem name_none (w : World) (o : PO)
     whatever the options, the environment, the files and the directory -/
 theorem name_valid (w : World) (opts : List Opt) (r : Loaded) (h : run w opts = .ok r) :
     validName r.name = true ∧ r.name ≠ [] := by
-  obtain ⟨o, _, hl⟩ := run_ok_inv w opts r h
+  obtain ⟨o, files, _, _, _, hl⟩ := run_ok_inv w opts r h
   have hv := decide_name_valid _ _ (name_decision w o r hl)
   exact ⟨hv, valid_ne_nil _ hv⟩
 
@@ -116,15 +121,15 @@ theorem withName_invalid_rejected (w : World) (o : PO) (n : Str) (hn : n ≠ [])
     project is loaded -/
 theorem imperative_invalid_rejected (w : World) (opts : List Opt) (n : Str) (hmem : Opt.withName n ∈ opts)
     (hn : n ≠ []) (hv : validName n = false) : ∃ e, run w opts = .error e := by
-  obtain ⟨e, he⟩ := runOpts_mem_error w opts {} (.withName n) hmem
+  obtain ⟨e, he⟩ := runOpts_mem_error w opts { configs := w.given } (.withName n) hmem
     (fun o => ⟨_, withName_invalid_rejected w o n hn hv⟩)
   exact ⟨e, by simp [run, he]⟩
 
 /-- imperative_invalid_rejected (environment): an invalid non-empty `COMPOSE_PROJECT_NAME` in the project
     environment, with no explicit name, is rejected by the load -/
-theorem env_name_invalid_rejected (w : World) (o : PO) (n : Str) (hname : o.name = [])
+theorem env_name_invalid_rejected {files : List (List (Option Str))} (w : World) (o : PO) (n : Str) (hname : o.name = [])
     (henv : o.env.get cpn = some n) (hn : n ≠ []) (hv : validName n = false) :
-    load w o = .error .invalidName := by
+    loadFiles w o files = .error .invalidName := by
   apply name_rejected
   simp [Spec.decide, sourcesOf, hname, henv, Option.filter, hn, hv]
 
@@ -132,8 +137,8 @@ theorem env_name_invalid_rejected (w : World) (o : PO) (n : Str) (hname : o.name
     load with an explicitly requested name has exactly that name -/
 theorem explicit_name_wins (w : World) (opts : List Opt) (r : Loaded) (h : run w opts = .ok r)
     (hreq : requestedName opts [] ≠ []) : r.name = requestedName opts [] := by
-  obtain ⟨o, ho, hl⟩ := run_ok_inv w opts r h
-  have hn := runOpts_name w opts {} o ho
+  obtain ⟨o, files, ho, _, _, hl⟩ := run_ok_inv w opts r h
+  have hn : o.name = requestedName opts [] := runOpts_name w opts { configs := w.given } o ho
   have hd := name_decision w o r hl
   have hne : o.name ≠ [] := by rw [hn]; exact hreq
   simp only [Spec.decide, sourcesOf, hne, ne_eq, not_false_eq_true, if_true] at hd
@@ -145,7 +150,7 @@ theorem explicit_name_wins (w : World) (opts : List Opt) (r : Loaded) (h : run w
 /-- name_visible_to_interpolation: after a successful load the project environment maps
     `COMPOSE_PROJECT_NAME` to the project name, `${COMPOSE_PROJECT_NAME}` interpolates to it, and the strings of the
     model were interpolated against that same environment -/
-theorem name_visible_to_interpolation (w : World) (o : PO) (r : Loaded) (h : load w o = .ok r) :
+theorem name_visible_to_interpolation {files : List (List (Option Str))} (w : World) (o : PO) (r : Loaded) (h : loadFiles w o files = .ok r) :
     r.env.get cpn = some r.name ∧
     Template.subst r.env.get "${COMPOSE_PROJECT_NAME}".toList = .ok r.name ∧
     Template.subst r.env.get w.probe = .ok r.probe := by
@@ -155,6 +160,144 @@ theorem name_visible_to_interpolation (w : World) (o : PO) (r : Loaded) (h : loa
   have := subst_cpn r.env.get
   rw [hg] at this
   exact this
+
+/-- name_decision at the level of `LoadProject`: the config paths selected by the options are the files whose
+    `name:` keys take part in the decision -/
+theorem load_name_decision (w : World) (o : PO) (r : Loaded) (h : load w o = .ok r) :
+    ∃ files, o.configs ≠ [] ∧ readConfigs w o.configs = .ok files ∧
+      Spec.decide (sourcesOf w o files) = .name r.name := by
+  obtain ⟨files, h1, h2, h3⟩ := load_inv w o r h
+  exact ⟨files, h1, h2, name_decision w o r h3⟩
+
+/-! ## which compose files are loaded (`WithConfigFileEnv`, `WithDefaultConfigPath`, `WithWorkingDirectory`) -/
+
+
+/-- config paths that are already there win: neither `COMPOSE_FILE` nor the default-name search is consulted -/
+theorem given_configs_win (w : World) (o : PO) (h : o.configs ≠ []) :
+    applyOpt w o .withConfigFileEnv = .ok o ∧ applyOpt w o .withDefaultConfigPath = .ok o := by
+  cases hc : o.configs with
+  | nil => exact absurd hc h
+  | cons c cs => simp [applyOpt, withConfigFileEnv, withDefaultConfigPath, hc]
+
+/-- `WithConfigFileEnv` with no config path yet: `COMPOSE_FILE` *of the project environment at that point* is split
+    and every entry must exist; the result replaces the config paths -/
+theorem configFileEnv_selects (w : World) (o : PO) (h : o.configs = []) (f : Str)
+    (hf : o.env.get composeFileKey = some f) :
+    applyOpt w o .withConfigFileEnv =
+      match resolvePaths w (splitOn (pathSep o) f) with
+      | .ok rs => .ok { o with configs := rs }
+      | .error e => .error e := by
+  simp only [applyOpt, withConfigFileEnv, h, hf, pathSep]
+  generalize resolvePaths w _ = r
+  cases r <;> rfl
+
+theorem configFileEnv_unset (w : World) (o : PO) (h : o.configs = []) (hf : o.env.get composeFileKey = none) :
+    applyOpt w o .withConfigFileEnv = .ok o := by
+  simp only [applyOpt, withConfigFileEnv, h, hf]
+
+/-- a `COMPOSE_FILE` entry that does not exist is an error, whatever the other entries are -/
+theorem resolvePaths_missing (w : World) (pre post : List Str) (p : Str) (hp : List.lookup p w.paths = none)
+    (hpre : ∀ q ∈ pre, (List.lookup q w.paths).isSome) :
+    resolvePaths w (pre ++ p :: post) = .error .configNotFound := by
+  induction pre with
+  | nil => simp [resolvePaths, hp]
+  | cons q qs ih =>
+    have hq := hpre q List.mem_cons_self
+    cases hl : List.lookup q w.paths with
+    | none => rw [hl] at hq; cases hq
+    | some r =>
+      simp only [List.cons_append, resolvePaths, hl, ih (fun x hx => hpre x (List.mem_cons_of_mem _ hx))]
+
+/-- `COMPOSE_FILE=a:b:c` (entries without the separator) is split back into `a`, `b`, `c` -/
+theorem splitOn_join (c : Char) (parts : List Str) (hne : parts ≠ []) (h : ∀ p ∈ parts, c ∉ p) :
+    splitOn [c] (joinWith c parts) = parts := by
+  apply splitOnFuel_join c parts hne h
+  -- the joined string is at least as long as the number of separators
+  have : ∀ ps : List Str, ps ≠ [] → ps.length ≤ (joinWith c ps).length + 1 := by
+    intro ps
+    induction ps with
+    | nil => intro h; exact absurd rfl h
+    | cons x xs ih =>
+      intro _
+      cases xs with
+      | nil => simp [joinWith]
+      | cons y ys =>
+        have := ih (List.cons_ne_nil _ _)
+        simp [joinWith] at this ⊢
+        omega
+  exact this parts hne
+
+/-- the default-name search, one step: a directory that holds a default file name answers with the first such
+    name in order of preference, plus the first override name present in the SAME directory -/
+theorem searchUp_here (w : World) (fuel d : Nat) (winner : Str) (rest : List Str)
+    (h : defaultFileNames.filter (present (dirNode w d)) = winner :: rest) :
+    searchUp w (fuel + 1) d =
+      { dir := d, file := some winner } ::
+        (match defaultOverrideFileNames.filter (present (dirNode w d)) with
+         | ov :: _ => [{ dir := d, file := some ov }]
+         | [] => []) := by
+  simp only [searchUp, h]
+  cases defaultOverrideFileNames.filter (present (dirNode w d)) <;> rfl
+
+/-- … and a directory without any goes to its parent; at the top nothing is found (not an error by itself) -/
+theorem searchUp_up (w : World) (fuel d : Nat) (h : defaultFileNames.filter (present (dirNode w d)) = []) :
+    searchUp w (fuel + 1) d =
+      match (dirNode w d).parent with
+      | some p => searchUp w fuel p
+      | none => [] := by
+  simp only [searchUp, h]
+  cases (dirNode w d).parent <;> rfl
+
+/-- whatever the search returns lives in ONE directory, consists of default (override) names that exist there,
+    main file first -/
+theorem searchUp_sound (w : World) (fuel d : Nat) (c : CfgRef) (hc : c ∈ searchUp w fuel d) :
+    ∃ f, c.file = some f ∧ present (dirNode w c.dir) f = true ∧
+      (f ∈ defaultFileNames ∨ f ∈ defaultOverrideFileNames) ∧
+      (searchUp w fuel d).head?.map (·.dir) = some c.dir := by
+  induction fuel generalizing d with
+  | zero => simp [searchUp] at hc
+  | succ n ih =>
+    cases hf : defaultFileNames.filter (present (dirNode w d)) with
+    | nil =>
+      rw [searchUp_up w n d hf] at hc ⊢
+      cases hp : (dirNode w d).parent with
+      | none => rw [hp] at hc; cases hc
+      | some p => rw [hp] at hc; exact ih p hc
+    | cons winner rest =>
+      rw [searchUp_here w n d winner rest hf] at hc ⊢
+      have hwin : winner ∈ defaultFileNames.filter (present (dirNode w d)) := by rw [hf]; exact List.mem_cons_self
+      have hw := List.mem_filter.mp hwin
+      rcases List.mem_cons.mp hc with e | e
+      · subst e; exact ⟨winner, rfl, hw.2, Or.inl hw.1, rfl⟩
+      · cases ho : defaultOverrideFileNames.filter (present (dirNode w d)) with
+        | nil => rw [ho] at e; cases e
+        | cons ov r2 =>
+          rw [ho] at e
+          have hov : ov ∈ defaultOverrideFileNames.filter (present (dirNode w d)) := by rw [ho]; exact List.mem_cons_self
+          have hov' := List.mem_filter.mp hov
+          simp only [List.mem_singleton] at e
+          subst e
+          exact ⟨ov, rfl, hov'.2, Or.inr hov'.1, rfl⟩
+
+/-- `WithDefaultConfigPath` with no config path yet starts the search at the project directory as it is then -/
+theorem defaultConfigPath_selects (w : World) (o : PO) (h : o.configs = []) :
+    applyOpt w o .withDefaultConfigPath =
+      .ok { o with configs := searchUp w (w.dirs.length + 1) (projDirId w o) } := by
+  simp only [applyOpt, withDefaultConfigPath, h]
+
+/-- no config path at load time: nothing is loaded -/
+theorem no_config_no_project (w : World) (o : PO) (h : o.configs = []) : load w o = .error .noConfig := by
+  simp [load, h]
+
+/-- without `WithWorkingDirectory` the project directory is the directory of the FIRST config path, so the file
+    selection also decides the name fallback and the default `.env` -/
+theorem project_dir_follows_first_config (w : World) (o : PO) (c : CfgRef) (cs : List CfgRef)
+    (hw : o.workDir = none) (hc : o.configs = c :: cs) : projDir w o = (dirNode w c.dir).name := by
+  simp [projDir, projDirId, hw, hc]
+
+theorem project_dir_is_workdir (w : World) (o : PO) (d : Nat) (hw : o.workDir = some d) :
+    projDir w o = (dirNode w d).name := by
+  simp [projDir, projDirId, hw]
 
 /-! ## the project environment -/
 
@@ -178,14 +321,14 @@ theorem explicit_over_all (w : World) (opts : List Opt) (o o' : PO) (h : runOpts
   rw [env_any_option_order w opts o o' h, List.append_assoc, get_append, hk]
 
 theorem env_precedence_documented_order (w : World) (pre : List Opt)
-    (hpre : ∀ x ∈ pre, x ≠ .withDotEnv) (o' : PO)
-    (h : runOpts w (pre ++ [.withDotEnv]) {} = .ok o') :
-    ∃ o1 m, runOpts w pre {} = .ok o1 ∧
+    (hpre : ∀ x ∈ pre, x ≠ .withDotEnv) (o0 o' : PO) (h0 : o0.env = [])
+    (h : runOpts w (pre ++ [.withDotEnv]) o0 = .ok o') :
+    ∃ o1 m, runOpts w pre o0 = .ok o1 ∧
       (∀ k, o1.env.get k = lookupLayers [explicitLayer pre, osLayer w pre] k) ∧
       getEnvFromFile w o1.env o1.envFiles [] = .ok m ∧
       ∀ k, o'.env.get k = lookupLayers [explicitLayer pre, osLayer w pre, m] k := by
   rw [runOpts_append] at h
-  cases h1 : runOpts w pre {} with
+  cases h1 : runOpts w pre o0 with
   | error e => rw [h1] at h; cases h
   | ok o1 =>
     rw [h1] at h
@@ -195,50 +338,173 @@ theorem env_precedence_documented_order (w : World) (pre : List Opt)
     | ok m =>
       rw [hm] at h
       cases h
-      have hs := env_any_option_order w pre {} o1 h1
+      have hs := env_any_option_order w pre o0 o1 h1
       have hk1 : ∀ k, o1.env.get k = lookupLayers [explicitLayer pre, osLayer w pre] k := by
         intro k
         rw [hs, lookupLayers_two]
-        simp only [List.append_nil, get_append, underOf_noDot w pre {} o1 hpre h1 k]
+        simp only [h0, List.append_nil, get_append, underOf_noDot w pre o0 o1 hpre h1 k]
       refine ⟨o1, m, rfl, hk1, hm, ?_⟩
       intro k
       simp only [get_append, hk1 k, lookupLayers]
       cases (explicitLayer pre).get k <;> cases (osLayer w pre).get k <;> cases m.get k <;> rfl
 
-/-- later `.env` files win over earlier ones -/
-theorem dotenv_later_over_earlier (w : World) (cur : Env) (fs : List FileRef) (f : FileRef) (acc m : Env)
-    (h : getEnvFromFile w cur (fs ++ [f]) acc = .ok m) :
-    ∃ m0 ls out, getEnvFromFile w cur fs acc = .ok m0 ∧ lookupFile w f = some (.file ls) ∧
-      parseLines (chain cur m0) ls [] = .ok out ∧
-      ∀ k, m.get k = match out.get k with | some v => some v | none => m0.get k := by
-  obtain ⟨m0, ls, out, h1, h2, h3, h4⟩ := getEnvFromFile_snoc w cur fs f acc m h
-  exact ⟨m0, ls, out, h1, h2, h3, fun k => by rw [h4, get_append]; cases out.get k <;> rfl⟩
-
-/-- a `.env` value is expanded with the variables above it: the project environment so far, then the
-    earlier files, then the earlier lines of the same file -/
-theorem dotenv_refs_above (cur envMap out : Env) (k t : Str) (ls : List (Str × Str)) :
-    parseLines (chain cur envMap) ((k, t) :: ls) out =
-      match Template.subst (lookupLayers [cur, envMap, out]) t with
-      | .ok v => parseLines (chain cur envMap) ls ((k, v) :: out)
-      | .err _ => .error .dotenvParse
-      | .panic _ => .error .panic :=
-  parseLines_cons cur envMap out k t ls
-
 /-- the rest of the project environment is untouched by the load: every other variable keeps the value the
     options gave it -/
-theorem load_env_frame (w : World) (o : PO) (r : Loaded) (h : load w o = .ok r) (k : Str) (hk : k ≠ cpn) :
+theorem load_env_frame {files : List (List (Option Str))} (w : World) (o : PO) (r : Loaded) (h : loadFiles w o files = .ok r) (k : Str) (hk : k ≠ cpn) :
     r.env.get k = o.env.get k := by
   obtain ⟨_, _, henv, _, _⟩ := load_ok_inv w o r h
   rw [henv]
   have hb : (k == cpn) = false := by simpa using hk
   simp [Env.get, List.lookup_cons, hb]
 
-/-- dotenv_refines_spec: on env files that exist, `GetEnvFromFile` computes exactly the layers of the
-    specification (later file first), flattened -/
+/-- the documented call sequence end to end: with the options in the documented order, a successful load has
+    the name `Spec.decide` selects from (last `WithName`, `COMPOSE_PROJECT_NAME` read through the layers
+    explicit > OS > .env, the compose files, the project directory) -/
+theorem name_decision_documented_order (w : World) (pre : List Opt)
+    (hpre : ∀ x ∈ pre, x ≠ .withDotEnv) (r : Loaded)
+    (h : run w (pre ++ [.withDotEnv]) = .ok r) :
+    ∃ o' m files, runOpts w (pre ++ [.withDotEnv]) { configs := w.given } = .ok o' ∧
+      readConfigs w o'.configs = .ok files ∧
+      o'.name = requestedName pre [] ∧
+      o'.env.get cpn = lookupLayers [explicitLayer pre, osLayer w pre, m] cpn ∧
+      Spec.decide (sourcesOf w o' files) = .name r.name := by
+  obtain ⟨o', files, ho, _, hf, hl⟩ := run_ok_inv w _ r h
+  obtain ⟨o1, m, _, _, _, hk⟩ := env_precedence_documented_order w pre hpre _ o' rfl ho
+  refine ⟨o', m, files, ho, hf, ?_, hk cpn, name_decision w o' r hl⟩
+  rw [runOpts_name w _ _ o' ho]
+  simp [requestedName]
+
+
+/-- in the documented order (`… WithDotEnv, WithConfigFileEnv`) with no config path given, the `COMPOSE_FILE`
+    (and separator) consulted are the ones of the layered project environment explicit > OS > .env -/
+theorem compose_file_documented_order (w : World) (pre : List Opt) (hpre : ∀ x ∈ pre, x ≠ .withDotEnv)
+    (o0 o1 : PO) (h0 : o0.env = []) (h : runOpts w (pre ++ [.withDotEnv]) o0 = .ok o1) (hc : o1.configs = []) :
+    ∃ m, (∀ k, o1.env.get k = lookupLayers [explicitLayer pre, osLayer w pre, m] k) ∧
+      applyOpt w o1 .withConfigFileEnv =
+        match lookupLayers [explicitLayer pre, osLayer w pre, m] composeFileKey with
+        | none => .ok o1
+        | some f =>
+          match resolvePaths w (splitOn (pathSep o1) f) with
+          | .ok rs => .ok { o1 with configs := rs }
+          | .error e => .error e := by
+  obtain ⟨_, m, _, _, _, hk⟩ := env_precedence_documented_order w pre hpre o0 o1 h0 h
+  refine ⟨m, hk, ?_⟩
+  rw [← hk composeFileKey]
+  cases hf : o1.env.get composeFileKey with
+  | none => exact configFileEnv_unset w o1 hc hf
+  | some f => exact configFileEnv_selects w o1 hc f hf
+
+/-! ## the env files -/
+
+
+/-- an explicit selection replaces whatever was selected before and touches nothing else -/
+theorem withEnvFiles_explicit (w : World) (o : PO) (f : Str) (fs : List Str) :
+    applyOpt w o (.withEnvFiles (f :: fs)) = .ok { o with envFiles := (f :: fs).map .named } := rfl
+
+/-- `WithEnvFiles()`: junk in `COMPOSE_DISABLE_ENV_FILE` is an error -/
+theorem withEnvFiles_junk_rejected (w : World) (o : PO) (v : Str) (hv : disableVar w = some v)
+    (hp : parseBool v = none) : applyOpt w o (.withEnvFiles []) = .error .disableParse := by
+  simp only [applyOpt, withEnvFiles]
+  rw [show (asEqualsMap w.os).get disableKey = some v from hv]
+  simp [hp]
+
+/-- `WithEnvFiles()`: a true `COMPOSE_DISABLE_ENV_FILE` leaves the options untouched -/
+theorem withEnvFiles_disabled (w : World) (o : PO) (v : Str) (hv : disableVar w = some v)
+    (hp : parseBool v = some true) : applyOpt w o (.withEnvFiles []) = .ok o := by
+  simp only [applyOpt, withEnvFiles]
+  rw [show (asEqualsMap w.os).get disableKey = some v from hv]
+  simp [hp]
+
+/-- `WithEnvFiles()` not disabled: the `.env` of the project directory *as it is when the option runs*
+    (`WorkingDir`, else the directory of the first config path, else the process directory) becomes the selection
+    if it is a regular file; otherwise (absent, or a directory) the previous selection is kept -/
+theorem withEnvFiles_default (w : World) (o : PO)
+    (hv : disableVar w = none ∨ ∃ v, disableVar w = some v ∧ parseBool v = some false) :
+    applyOpt w o (.withEnvFiles []) = .ok
+      (match (dirNode w (projDirId w o)).dotEnv with
+       | some (.file _) => { o with envFiles := [.default (projDirId w o)] }
+       | _ => o) := by
+  simp only [applyOpt, withEnvFiles]
+  rcases hv with hv | ⟨v, hv, hp⟩
+  · rw [show (asEqualsMap w.os).get disableKey = none from hv]; rfl
+  · rw [show (asEqualsMap w.os).get disableKey = some v from hv]; simp only [hp]; rfl
+
+/-- `WithDotEnv` with nothing selected changes nothing (the README sequence `WithOsEnv, WithDotEnv` loads no file) -/
+theorem withDotEnv_no_files (w : World) (o : PO) (h : o.envFiles = []) : applyOpt w o .withDotEnv = .ok o := by
+  cases o with
+  | mk n e ef wd cf =>
+    simp only at h
+    subst h
+    simp [applyOpt, getEnvFromFile]
+
+
+/-- dotenv_refines_spec: on env files made of accepted `KEY=VALUE` lines, `GetEnvFromFile` (through the parser
+    model) and the specification's layers succeed together and agree on every key -/
 theorem dotenv_refines_spec (w : World) (cur : Env) (refs : List FileRef) (contents : List (List (Str × Str)))
-    (hfiles : refs.map (lookupFile w) = contents.map (fun ls => some (.file ls))) (acc : List Env) :
-    (getEnvFromFile w cur refs acc.flatten).toOption =
-      (dotenvLayers cur contents acc).toOption.map List.flatten := by
+    (hfiles : refs.map (lookupFile w) = contents.map (fun ls => some (.file (renderSimple ls))))
+    (hok : ∀ ls ∈ contents, ls.all simpleOk = true)
+    (m : Env) (acc : List Env) (hm : ∀ k, m.get k = Env.get acc.flatten k) :
+    SameLayers (getEnvFromFile w cur refs m) (dotenvLayers cur contents acc) := by
+  induction refs generalizing contents m acc with
+  | nil =>
+    cases contents with
+    | nil => simpa [getEnvFromFile, dotenvLayers, SameLayers] using hm
+    | cons c cs => cases hfiles
+  | cons f fs ih =>
+    cases contents with
+    | nil => cases hfiles
+    | cons c cs =>
+      simp only [List.map_cons, List.cons.injEq] at hfiles
+      have hc : c.all simpleOk = true := hok c List.mem_cons_self
+      simp only [getEnvFromFile, hfiles.1, dotenvLayers]
+      rw [envOf_congr cur m acc.flatten hm]
+      have hp := parseFile_simple cur acc.flatten c hc
+      unfold parseFile
+      cases h1 : Dotenv.parse (Dotenv.stripBOM (renderSimple c)) (Dotenv.envOf cur.get acc.flatten) with
+      | ok out =>
+        rw [h1] at hp
+        cases h2 : fileLayer cur acc.flatten c [] with
+        | error e => rw [h2] at hp; exact hp.elim
+        | ok out2 =>
+          rw [h2] at hp
+          simp only
+          apply ih cs hfiles.2 (fun ls hl => hok ls (List.mem_cons_of_mem _ hl))
+          intro k
+          have hnd : (Keys out).Nodup := parseLoop_nodup _ _ _ _ _ h1 (by simp [Keys])
+          rw [← dget_eq, get_mergeInto m out hnd k, List.flatten_cons, get_append, hp k, dget_eq, hm k]
+          cases out2.get k <;> rfl
+      | err e p =>
+        rw [h1] at hp
+        cases h2 : fileLayer cur acc.flatten c [] with
+        | error e => simp [SameLayers]
+        | ok out2 => rw [h2] at hp; exact hp.elim
+      | panic s =>
+        rw [h1] at hp
+        cases h2 : fileLayer cur acc.flatten c [] with
+        | error e => simp [SameLayers]
+        | ok out2 => rw [h2] at hp; exact hp.elim
+
+/-- the first selected env file that is missing (or is a directory) decides the error -/
+theorem getEnvFromFile_first_bad (w : World) (cur : Env) (pre post : List FileRef) (f : FileRef) (acc m0 : Env)
+    (hpre : getEnvFromFile w cur pre acc = .ok m0) :
+    (lookupFile w f = none → getEnvFromFile w cur (pre ++ f :: post) acc = .error .envNotFound) ∧
+    (lookupFile w f = some .dir → getEnvFromFile w cur (pre ++ f :: post) acc = .error .envIsDir) := by
+  constructor <;> intro hf <;> rw [getEnvFromFile_append, hpre] <;> simp [getEnvFromFile, hf]
+
+theorem dotenv_later_over_earlier (w : World) (cur : Env) (fs : List FileRef) (f : FileRef) (acc m : Env)
+    (h : getEnvFromFile w cur (fs ++ [f]) acc = .ok m) :
+    ∃ m0 c out, getEnvFromFile w cur fs acc = .ok m0 ∧ lookupFile w f = some (.file c) ∧
+      parseFile (Dotenv.envOf cur.get m0) c = .ok out ∧
+      ∀ k, m.get k = match out.get k with | some v => some v | none => m0.get k := by
+  obtain ⟨m0, c, out, h1, h2, h3, h4⟩ := getEnvFromFile_snoc w cur fs f acc m h
+  refine ⟨m0, c, out, h1, h2, h3, fun k => ?_⟩
+  rw [h4, ← dget_eq, get_mergeInto m0 out (parseFile_nodup _ _ _ h3) k, dget_eq, dget_eq]
+  cases out.get k <;> rfl
+
+/-- `getEnvFromFile` on files that exist is C18's `Dotenv.fromFiles` on their contents -/
+theorem dotenv_is_fromFiles (w : World) (cur : Env) (refs : List FileRef) (contents : List Str)
+    (hfiles : refs.map (lookupFile w) = contents.map (fun c => some (.file c))) (acc : Env) :
+    getEnvFromFile w cur refs acc = toErr (Dotenv.fromFiles cur.get contents acc) := by
   induction refs generalizing contents acc with
   | nil =>
     cases contents with
@@ -249,83 +515,111 @@ theorem dotenv_refines_spec (w : World) (cur : Env) (refs : List FileRef) (conte
     | nil => cases hfiles
     | cons c cs =>
       simp only [List.map_cons, List.cons.injEq] at hfiles
-      simp only [getEnvFromFile, hfiles.1, dotenvLayers]
-      have hp := parseLines_spec cur acc.flatten c []
-      cases h1 : parseLines (chain cur acc.flatten) c [] with
-      | error e =>
-        rw [h1] at hp
-        cases h2 : fileLayer cur acc.flatten c [] with
-        | error e2 => rfl
-        | ok out2 => rw [h2] at hp; cases hp
-      | ok out =>
-        rw [h1] at hp
-        cases h2 : fileLayer cur acc.flatten c [] with
-        | error e2 => rw [h2] at hp; cases hp
-        | ok out2 =>
-          rw [h2] at hp
-          cases hp
-          have := ih cs hfiles.2 (out :: acc)
-          simpa using this
+      simp only [getEnvFromFile, hfiles.1, Dotenv.fromFiles, parseFile]
+      cases Dotenv.parse (Dotenv.stripBOM c) (Dotenv.envOf cur.get acc) with
+      | ok env => exact ih cs hfiles.2 _
+      | err e p => rfl
+      | panic s => rfl
 
-/-- the documented call sequence end to end: with the options in the documented order, a successful load has
-    the name `Spec.decide` selects from (last `WithName`, `COMPOSE_PROJECT_NAME` read through the layers
-    explicit > OS > .env, the compose files, the project directory) -/
-theorem name_decision_documented_order (w : World) (pre : List Opt)
-    (hpre : ∀ x ∈ pre, x ≠ .withDotEnv) (r : Loaded)
-    (h : run w (pre ++ [.withDotEnv]) = .ok r) :
-    ∃ o' m, runOpts w (pre ++ [.withDotEnv]) {} = .ok o' ∧
-      o'.name = requestedName pre [] ∧
-      o'.env.get cpn = lookupLayers [explicitLayer pre, osLayer w pre, m] cpn ∧
-      Spec.decide (sourcesOf w o') = .name r.name := by
-  obtain ⟨o', ho, hl⟩ := run_ok_inv w _ r h
-  obtain ⟨o1, m, _, _, _, hk⟩ := env_precedence_documented_order w pre hpre o' ho
-  refine ⟨o', m, ho, ?_, hk cpn, name_decision w o' r hl⟩
-  rw [runOpts_name w _ {} o' ho]
-  simp [requestedName]
+/-- on any file written in the env-file grammar the parser computes the grammar's meaning, with the lookup
+    chain project environment → earlier files (→ earlier lines, inside `evalLines`) -/
+theorem dotenv_grammar_semantics (cur envMap : Env) (L : List Dotenv.Line) (hwf : Dotenv.WF L = true)
+    (hbom : Dotenv.stripBOM (Dotenv.render L) = Dotenv.render L) :
+    parseFile (Dotenv.envOf cur.get envMap) (Dotenv.render L) =
+      toErr (Dotenv.evalLines (Dotenv.envOf cur.get envMap) L) := by
+  unfold parseFile
+  rw [hbom, Dotenv.parse_render_lemma _ _ hwf]
+  cases Dotenv.evalLines (Dotenv.envOf cur.get envMap) L <;> rfl
+
+theorem dotenv_ref_var (above earlier out : Env) (k r : Str) (b : Bool) (ls : List (Str × Str))
+    (hr : Template.validName r = true) :
+    fileLayer above earlier ((k, Template.renderL [Template.Seg.var r b]) :: ls) out =
+      fileLayer above earlier ls ((k, (lookupLayers [above, earlier, out] r).getD []) :: out) := by
+  have hwf : Template.WF [Template.Seg.var r b] = true := by
+    cases b <;> simp [Template.WF, Template.wfL, Template.Seg.wf, hr, Template.renderL, Template.noNameHead]
+  rw [fileLayer_value above earlier out k _ ls hwf]
+  simp [Template.evalOut, Template.evalL, Template.Seg.eval]
+
+theorem dotenv_ref_default (above earlier out : Env) (k r d : Str) (ls : List (Str × Str))
+    (hr : Template.validName r = true) (hd : Template.litOkArg d = true) :
+    fileLayer above earlier ((k, Template.renderL [Template.Seg.op r .colonDash [Template.Seg.lit d]]) :: ls) out =
+      fileLayer above earlier ls
+        ((k, match lookupLayers [above, earlier, out] r with
+             | some v => if v = [] then d else v
+             | none => d) :: out) := by
+  have hwf : Template.WF [Template.Seg.op r .colonDash [Template.Seg.lit d]] = true := by
+    simp [Template.WF, Template.wfL, Template.Seg.wf, hr, hd]
+  rw [fileLayer_value above earlier out k _ ls hwf]
+  cases hl : lookupLayers [above, earlier, out] r with
+  | none => simp [Template.evalOut, Template.evalL, Template.Seg.eval, Template.opSpec, hl]
+  | some v =>
+    by_cases hv : v = []
+    · subst hv; simp [Template.evalOut, Template.evalL, Template.Seg.eval, Template.opSpec, hl]
+    · simp [Template.evalOut, Template.evalL, Template.Seg.eval, Template.opSpec, hl, hv]
+
+/-- **the simple-line evaluator of the specification is the restriction of the env-file parser** (C18's model,
+    `Dotenv.parse_render`) to files made of accepted `KEY=VALUE` lines -/
+theorem simple_lines_are_parser_restriction (above earlier : Env) (ls : List (Str × Str))
+    (h : ls.all simpleOk = true) :
+    SameResult (Dotenv.parse (Dotenv.stripBOM (renderSimple ls)) (Dotenv.envOf above.get earlier))
+      (fileLayer above earlier ls []) := parseFile_simple above earlier ls h
+
+/-- dotenv_refs_above, general reference semantics: the value of a line whose text is ANY well-formed template
+    (`${R}`, `${R:-d}`, `${R:?m}`, nested, escaped `$$` …) is what the interpolation grammar says (C07's
+    `subst_render`), evaluated against the variables above the env files first (explicit and OS variables in
+    the documented order), then the earlier files, then the earlier lines of the same file -/
+theorem dotenv_refs_above (above earlier out : Env) (k : Str) (t : List Template.Seg) (ls : List (Str × Str))
+    (h : Template.WF t = true) :
+    fileLayer above earlier ((k, Template.renderL t) :: ls) out =
+      match Template.evalOut (lookupLayers [above, earlier, out]) t with
+      | .ok v => fileLayer above earlier ls ((k, v) :: out)
+      | _ => .error () := fileLayer_value above earlier out k t ls h
+
 
 /-! ## non-vacuity: concrete worlds on which the hypotheses of the theorems hold -/
 
-/-- a world with all four name sources and a variable `V` defined in OS env, two env files -/
-def exW : World where
-  dir := "My.Dir".toList
-  os := strs ["COMPOSE_PROJECT_NAME=os", "V=o"]
-  files := [[some "f1".toList], [some "F.2".toList]]
-  envFiles := [("a".toList, .file [("V".toList, "a".toList), ("R".toList, "$V".toList), ("X".toList, "1".toList)]),
-               ("b".toList, .file [("X".toList, "2".toList), ("S".toList, "$X$R".toList)])]
-  dotEnv := none
-  probe := "$V$X".toList
-
-def exDoc : List Opt := [.withEnv (strs ["Y=e"]), .withOsEnv, .withEnvFiles (strs ["a", "b"]), .withDotEnv]
-
-def nameOf (r : Except Err Loaded) : Option String := r.toOption.map (fun l => String.ofList l.name)
-def errOf (r : Except Err Loaded) : Option Err := match r with | .error e => some e | .ok _ => none
-def varOf (k : String) (r : Except Err Loaded) : Option String := r.toOption.bind (fun l => (l.env.get k.toList).map String.ofList)
-
 -- explicit name over COMPOSE_PROJECT_NAME over file over directory
-example : nameOf (run exW (.withName "ex".toList :: exDoc)) = some "ex" := by decide
-example : nameOf (run exW exDoc) = some "os" := by decide
-example : nameOf (run { exW with os := strs ["V=o"] } exDoc) = some "f2" := by decide
-example : nameOf (run { exW with os := [], files := [[none]] } exDoc) = some "mydir" := by decide
--- a file name that normalises to empty falls through to the directory
-example : nameOf (run { exW with os := [], files := [[some "f1".toList], [some "_.".toList]] } exDoc) = some "mydir" := by decide
+example : nameOf (run exW (.withName "ex".toList :: exDoc)) = some "ex" := by eval_run; decide
+example : nameOf (run exW exDoc) = some "os" := by eval_run; decide
+example : nameOf (run (mkW ["V=o"] g12 "f1".toList "F.2".toList "My.Dir".toList) exDoc) = some "f2" := by eval_run; decide
+example : nameOf (run (mkW [] g12 [] [] "My.Dir".toList) exDoc) = some "mydir" := by eval_run; decide
+-- a file name that normalises to empty falls through to the directory, not to the earlier file
+example : nameOf (run (mkW [] g12 "f1".toList "_.".toList "My.Dir".toList) exDoc) = some "mydir" := by eval_run; decide
 -- invalid requests are rejected; nothing yields a name
-example : errOf (run exW (exDoc ++ [.withName "Ex".toList])) = some .invalidName := by decide
-example : errOf (run { exW with os := strs ["COMPOSE_PROJECT_NAME=a.b"] } exDoc) = some .invalidName := by decide
-example : errOf (run { exW with os := [], files := [[none]], dir := "日本".toList } exDoc) = some .emptyName := by decide
+example : errOf (run exW (exDoc ++ [.withName "Ex".toList])) = some .invalidName := by eval_run; decide
+example : errOf (run (mkW ["COMPOSE_PROJECT_NAME=a.b"] g12 [] [] "d".toList) exDoc) = some .invalidName := by eval_run; decide
+example : errOf (run (mkW [] g12 [] [] "日本".toList) exDoc) = some .emptyName := by eval_run; decide
 -- environment: explicit over OS over later file over earlier file; references see the variables above
-example : varOf "V" (run exW (.withEnv (strs ["V=e"]) :: exDoc)) = some "e" := by decide
-example : varOf "V" (run exW (exDoc ++ [.withEnv (strs ["V=e"])])) = some "e" := by decide
-example : varOf "V" (run exW exDoc) = some "o" := by decide
-example : varOf "X" (run exW exDoc) = some "2" := by decide
-example : varOf "R" (run exW exDoc) = some "o" := by decide     -- `$V` in file a: the OS value, not the file's own
--- `$X` in file b resolves to the EARLIER FILE's value (lookup chain: project env, earlier files, earlier lines), `$R` to file a's
-example : varOf "S" (run exW exDoc) = some "1o" := by decide
-example : varOf "COMPOSE_PROJECT_NAME" (run exW exDoc) = some "os" := by decide
-example : (run exW exDoc).toOption.map (fun l => String.ofList l.probe) = some "o2" := by decide
--- the hypotheses of `env_precedence_documented_order` / `dotenv_later_over_earlier` are satisfiable
-example : (∀ x ∈ exDoc.dropLast, x ≠ Opt.withDotEnv) ∧ (runOpts exW (exDoc.dropLast ++ [.withDotEnv]) {}).toOption.isSome = true := by decide
-example : (getEnvFromFile exW [] ([.named "a".toList] ++ [.named "b".toList]) []).toOption.isSome = true := by decide
+example : varOf "V" (run exW (.withEnv (strs ["V=e"]) :: exDoc)) = some "e" := by eval_run; decide
+example : varOf "V" (run exW (exDoc ++ [.withEnv (strs ["V=e"])])) = some "e" := by eval_run; decide
+example : varOf "V" (run exW exDoc) = some "o" := by eval_run; decide
+example : varOf "X" (run exW exDoc) = some "2" := by eval_run; decide
+example : varOf "R" (run exW exDoc) = some "o" := by eval_run; decide     -- `$V` in file a: the OS value, not the file's own
+example : varOf "S" (run exW exDoc) = some "1o" := by eval_run; decide    -- `$X`: the EARLIER FILE's value, `$R`: file a's
+example : varOf "COMPOSE_PROJECT_NAME" (run exW exDoc) = some "os" := by eval_run; decide
+example : (run exW exDoc).toOption.map (fun l => String.ofList l.probe) = some "o2" := by eval_run; decide
+-- which files are loaded: nothing given → COMPOSE_FILE of the project environment, else the default names upward
+example : errOf (run (mkW [] [] [] [] []) exDoc) = some .noConfig := by eval_run; decide
+example : nameOf (run (mkW [] [] [] [] []) [.withDefaultConfigPath]) = some "top" := by eval_run; decide
+example : (runOpts (mkW [] [] [] [] []) [.withDefaultConfigPath] {}).toOption.map (·.configs) =
+    some [{ dir := 1, file := some "compose.yaml".toList }, { dir := 1, file := some "compose.override.yml".toList }] := by
+  eval_run; decide
+example : nameOf (run (mkW ["COMPOSE_FILE=x.yaml"] [] [] [] []) [.withOsEnv, .withConfigFileEnv]) = some "top" := by eval_run; decide
+example : errOf (run (mkW ["COMPOSE_FILE=x.yaml:nope.yaml"] [] [] [] []) [.withOsEnv, .withConfigFileEnv]) = some .configNotFound := by
+  eval_run; decide
+-- COMPOSE_FILE is read when the option runs: before WithOsEnv it is not there yet
+example : errOf (run (mkW ["COMPOSE_FILE=x.yaml"] [] [] [] []) [.withConfigFileEnv, .withOsEnv]) = some .noConfig := by eval_run; decide
+-- given files win over both
+example : nameOf (run (mkW ["COMPOSE_FILE=x.yaml"] g12 "f1".toList [] "d".toList) [.withOsEnv, .withConfigFileEnv, .withDefaultConfigPath]) = some "f1" := by
+  eval_run; decide
+-- the default `.env` is the one of the project directory the selection implies (directory 1 here)
+example : varOf "D" (run (mkW [] [] [] [] []) [.withDefaultConfigPath, .withEnvFiles [], .withDotEnv]) = some "top" := by eval_run; decide
+-- the hypotheses of `env_precedence_documented_order` / `dotenv_later_over_earlier` / `dotenv_refines_spec` are satisfiable
+example : (∀ x ∈ exDoc.dropLast, x ≠ Opt.withDotEnv) ∧ exDoc = exDoc.dropLast ++ [.withDotEnv] := by decide
+example : (run exW exDoc).toOption.isSome = true := by eval_run; decide
+example : [fa, fb].all (fun ls => ls.all simpleOk) = true := by decide
+example : (dotenvLayers (strs ["V=o"] |> asEqualsMap) [fa, fb] []).toOption.map (fun ls => (Env.get ls.flatten "S".toList)) = some (some "1o".toList) := by decide
 -- an undocumented order: `WithDotEnv` before `WithOsEnv` lets the file value win (covered by `env_any_option_order`)
-example : varOf "V" (run exW [.withEnvFiles (strs ["a"]), .withDotEnv, .withOsEnv]) = some "a" := by decide
+example : varOf "V" (run exW [.withEnvFiles (strs ["a"]), .withDotEnv, .withOsEnv]) = some "a" := by eval_run; decide
 
 end CV.Name
